@@ -1,8 +1,36 @@
 import Driver.Store
+import NixModel.Lemmas.C04Bfs
+open Lean Nix.Store
 
 namespace Driver.C04
 
-/-- C04 is decided on the structural (HDF5 graph) model: same driver for C02 C03 C04 C05 C12 C20 -/
-def main : IO Unit := Driver.Store.main
+/-- does the breadth-first id collection of `del owner.cname[key]` (section / source containers)
+end with an empty queue within the model's fuel? This is the decidable hypothesis of
+`Nix.C04.subtree_complete_of_done`; for every other container the answer is `true`. -/
+def fuelOk (g : Graph) (c : Cont) (key : Key) : Bool :=
+  match Nix.Store.C04.delTarget g c key with
+  | .error _ => true
+  | .ok k =>
+    let fuel := g.nodes.length * g.nodes.length + 1
+    match c.info.flavour with
+    | .sections => (Nix.Store.C04.bfsRest g "sections" fuel [k]).isEmpty
+    | .sources => (Nix.Store.C04.bfsRest g "sources" fuel [k]).isEmpty
+    | _ => true
+
+/-- C04 is decided on the structural (HDF5 graph) model: the protocol of `Driver.Store`, plus
+`["fuel_ok", owner, cname, key]` -/
+def step (g : Graph) (j : Json) : Graph × Json :=
+  match (Driver.jArr j).toList with
+  | [.str "fuel_ok", pj, .str cname, kj] =>
+    match Driver.Store.parsePath pj with
+    | none => (g, Driver.bad "path")
+    | some p =>
+      match openCont g p cname, Driver.Store.parseKey g kj with
+      | some c, some key => (g, Driver.ok (Json.bool (fuelOk g c key)))
+      | none, _ => (g, Driver.bad "container")
+      | _, none => (g, Driver.bad "key")
+  | _ => Driver.Store.step g j
+
+def main : IO Unit := Driver.loop ({} : Graph) step
 
 end Driver.C04
